@@ -360,6 +360,8 @@ let step_preds : (string * (vconfig -> fstep -> bool)) list = [
   ("c17_reset_ok", c17_reset_ok);
   ("c03_ready_closed_ok", c03_ready_closed_ok);
   ("c03_no_hang_ok", c03_no_hang_ok);
+  ("c11_emitted_ok", c11_emitted_ok);
+  ("c11_conn_types_ok", c11_conn_types_ok);
   (* classifiers of known classes: OK = the step is in the class *)
   ("c02_d2_class_neg", (fun c st -> not (c02_d2_class c st)));
   ("c02_d8_class_neg", (fun c st -> not (c02_d8_class c st)));
